@@ -97,8 +97,8 @@ PROPS = {
     ),
     'C04': dict(
         title='declared forwarding', proj='proj_full', oracle='c04',
-        quick=[S_('bind'), S_('forwards_exh', nc=32), S_('forwards_rand', count=30000), S_('declfwd', count=800)],
-        thorough=[S_('bind'), S_('forwards_exh', nc=32), S_('forwards_rand', count=400000), S_('declfwd', count=20000)],
+        quick=[S_('bind'), S_('forwards_exh', nc=32), S_('forwards_rand', count=30000), S_('declfwd', count=800), S_('probes_c04', nc=1)],
+        thorough=[S_('bind'), S_('forwards_exh', nc=32), S_('forwards_rand', count=400000), S_('declfwd', count=20000), S_('probes_c04', nc=1)],
         runtime_part='the forger protocol (set_signature_forger, forwards_to_method attribute walking, forwards_to_super, emulate) and execution of real wrappers',
         level_text='forwards = embed . mask is definitional in the Lean model and its soundness follows from the embed and mask theorems; the '
                    'correspondence compares real forwards with the model AND with real embed(outer, mask(inner)) in parameters and provenance; '
